@@ -11,15 +11,21 @@ CONSTANTS
   Targets <- MCTargets
   EmptyDiffShapes <- MCEmptyDiffShapes
   ClassShapes <- MCClassShapes
+  DeployShapes <- MCDeployShapes
+  CasmV2From = 4
   MaxPending = 1
   SuccessionChecked = TRUE
   RootChecked = TRUE
   RootCheckedOnEmptyDiff = TRUE
   TxHashesChecked = TRUE
   WriteBeforeChecks = FALSE
+  DeployGuard = TRUE
+  ExistGuard = TRUE
+  MigrateGuard = TRUE
+  RedeclareGuard = TRUE
 INIT Init
 NEXT Next
 VIEW view
 INVARIANTS TypeOK StoredChainValid StateIsChain DbConsistent
-PROPERTIES AcceptedOnlyIfValid RejectedUnchanged TamperRejected ValidAccepted PendingStoredIffContinues RestartIsNoOp
+PROPERTIES AcceptedOnlyIfValid RejectedUnchanged TamperRejected ValidAccepted PendingStoredIffContinues RestartIsNoOp InapplicableLooksValid
 CHECK_DEADLOCK FALSE
